@@ -4,7 +4,8 @@
 
 #define NMAX 1200
 #define KMAX 255
-#define RMAX 13
+#define RMAX 200
+#define RSW 13 /* rows 1..RSW are swept; 64, 65, 100, 200 are run as well */
 static uint8_t *M[KMAX];
 static uint8_t A[RMAX * KMAX];
 static uint8_t *P0[RMAX]; /* non-zero parity pre-fill */
@@ -18,6 +19,7 @@ static int apply(const struct ecimpl *im, int len, int k, int rows, int vec_i, u
 	/* the destination pointer array is exactly `rows` entries long and ends at an inaccessible page */
 	uint8_t **dstv = g_alloc(rows * sizeof(uint8_t *), G_END);
 	memcpy(dstv, dst, rows * sizeof(uint8_t *));
+	g_readonly(dstv, 1); /* the caller's array of parity pointers is an input */
 	if (V_TRY()) {
 		switch (im->kind) {
 		case K_MAD1: PCALL(im->fn, len, k, vec_i, tbl, src, dst[0]); break;
@@ -416,7 +418,7 @@ int main(int argc, char **argv)
 			}
 		/* (d) rows 1..13 for the high-level functions */
 		if (!im->width)
-			for (int rows = 1; rows <= RMAX; rows++)
+			for (int rows = 1; rows <= RSW; rows++)
 				for (unsigned ki = 0; ki < 3; ki++) {
 					if (!v_mine(unit++))
 						continue;
@@ -428,6 +430,21 @@ int main(int argc, char **argv)
 						run_history(im, lc[li], k, rows, seq, k, 1, -1, -1, "d:rows");
 					v_nontrivial(v_mix(ii + 3000, rows * 16 + ki));
 				}
+		/* (d2) many parity rows (64, 65, 100, 200) for the high-level functions, also at lengths below one vector (the byte-wise routine) */
+		if (!im->width) {
+			static const int bigrows[] = { 64, 65, 100, 200 }, ls2[] = { 1, 15, 31, 63, 64, 100, 300 };
+			for (int ri = 0; ri < 4; ri++) {
+				if (!v_mine(unit++))
+					continue;
+				if (v_deadline_hit() || nfail > 60)
+					goto out;
+				int rows = bigrows[ri], k = 3, seq[3] = { 2, 0, 1 };
+				ec_coeffs(A, rows * k, 90 + ri);
+				for (int li = 0; li < 7; li++)
+					run_history(im, ls2[li], k, rows, seq, k, li & 1, -1, -1, "d2:many-rows");
+				v_nontrivial(v_mix(ii + 3500, rows));
+			}
+		}
 		/* (e) multiplication table through the kernel */
 		if (v_mine(unit++)) {
 			uint8_t *save = M[0], *ramp = malloc(NMAX);
